@@ -815,4 +815,348 @@ theorem mark_coincide (d : Dir) (o : Array Pos) (len : Nat) (rank : Nat → Nat)
     ext <;> simp <;> omega
 
 
+
+/-! ### cursive -/
+
+/-- fields the cross-axis bookkeeping of a cursive attachment never touches -/
+def MainSame (d : Dir) (b b' : Pos) : Prop :=
+  b'.xa = b.xa ∧ b'.ya = b.ya ∧ (if d.isHorizontal then b'.xo = b.xo else b'.yo = b.yo)
+
+theorem MainSame.refl (d : Dir) (b : Pos) : MainSame d b b := ⟨rfl, rfl, by split <;> rfl⟩
+
+theorem MainSame.trans {d : Dir} {a b c : Pos} (h1 : MainSame d a b) (h2 : MainSame d b c) : MainSame d a c := by
+  obtain ⟨a1, a2, a3⟩ := h1
+  obtain ⟨b1, b2, b3⟩ := h2
+  refine ⟨by omega, by omega, ?_⟩
+  split <;> simp_all
+
+/-- `p'` agrees with `p` on everything but chain / type / cross-axis offset -/
+def MainSameArr (d : Dir) (p p' : Array Pos) : Prop :=
+  p'.size = p.size ∧ ∀ (k : Nat) (b : Pos), p[k]? = some b → ∃ b', p'[k]? = some b' ∧ MainSame d b b'
+
+theorem MainSameArr.refl (d : Dir) (p : Array Pos) : MainSameArr d p p :=
+  ⟨rfl, fun _ b h => ⟨b, h, MainSame.refl d b⟩⟩
+
+theorem MainSameArr.trans {d : Dir} {p q r : Array Pos} (h1 : MainSameArr d p q) (h2 : MainSameArr d q r) :
+    MainSameArr d p r := by
+  refine ⟨by rw [h2.1, h1.1], fun k b hk => ?_⟩
+  obtain ⟨b', hb', hm1⟩ := h1.2 k b hk
+  obtain ⟨b'', hb'', hm2⟩ := h2.2 k b' hb'
+  exact ⟨b'', hb'', hm1.trans hm2⟩
+
+theorem MainSameArr.put {d : Dir} {p : Array Pos} {i : Nat} {b v : Pos} (h : p[i]? = some b) (hv : MainSame d b v) :
+    MainSameArr d p (put p i v) := by
+  refine ⟨by simp, fun k c hk => ?_⟩
+  by_cases e : i = k
+  · subst e; rw [h] at hk; cases hk
+    exact ⟨v, put_get?_self _ _ (lt_of_get? h), hv⟩
+  · exact ⟨c, by rw [put_get?_ne _ _ e]; exact hk, MainSame.refl d c⟩
+
+theorem reverseCursive_main (d : Dir) (np : Nat) :
+    ∀ (fuel : Nat) (p q : Array Pos) (i dep : Nat),
+      reverseCursiveMinorOffset fuel p i d np = .ok (q, dep) → MainSameArr d p q ∧ dep ≤ nz p + 1 := by
+  intro fuel
+  induction fuel with
+  | zero => intro p q i dep h; simp [reverseCursiveMinorOffset] at h
+  | succ fuel ih =>
+    intro p q i dep h
+    unfold reverseCursiveMinorOffset at h
+    split at h
+    · cases h
+    · rename_i pi hg
+      have hpi := get_ok_iff.mp hg
+      split at h
+      · simp only [Except.ok.injEq, Prod.mk.injEq] at h
+        obtain ⟨rfl, rfl⟩ := h
+        exact ⟨MainSameArr.refl d p, by omega⟩
+      · rename_i hcond
+        have hc : pi.chain ≠ 0 := fun e => hcond (Or.inl e)
+        have hnz := nz_put (v := { pi with chain := 0 }) hpi
+        simp only [bne_iff_ne, ne_eq, hc, not_false_eq_true, if_true, not_true_eq_false, if_false] at hnz
+        have hm1 : MainSameArr d p (put p i { pi with chain := 0 }) :=
+          MainSameArr.put hpi ⟨rfl, rfl, by split <;> rfl⟩
+        simp only at h
+        split at h
+        · cases h
+        · split at h
+          · simp only [Except.ok.injEq, Prod.mk.injEq] at h
+            obtain ⟨rfl, rfl⟩ := h
+            exact ⟨hm1, by omega⟩
+          · split at h
+            · cases h
+            · rename_i p2 dep' hrec
+              obtain ⟨hm2, hd2⟩ := ih _ _ _ _ hrec
+              split at h
+              · cases h
+              · cases h
+              · rename_i qi qj hgi hgj
+                simp only [Except.ok.injEq, Prod.mk.injEq] at h
+                obtain ⟨rfl, rfl⟩ := h
+                refine ⟨(hm1.trans hm2).trans (MainSameArr.put (get_ok_iff.mp hgj) ?_), by omega⟩
+                refine ⟨?_, ?_, ?_⟩
+                · split <;> rfl
+                · split <;> rfl
+                · cases d.isHorizontal <;> simp
+
+
+
+theorem cursiveAttach_main {p q : Array Pos} {c pa dep : Nat} {d : Dir} {xOff yOff : Int}
+    (h : cursiveAttach p c pa d xOff yOff = .ok (q, dep)) : MainSameArr d p q := by
+  unfold cursiveAttach at h
+  split at h
+  · cases h
+  · rename_i p2 dep' hrev
+    have hm2 := (reverseCursive_main d _ _ _ _ _ _ hrev).1
+    split at h
+    · cases h
+    · rename_i pc hgc
+      have hpc := get_ok_iff.mp hgc
+      simp only at h
+      have hv : MainSame d pc
+          (if d.isHorizontal = true then
+            { pc with atype := ATTACH_CURSIVE, chain := wrap16 ((pa : Int) - (c : Int)), yo := yOff }
+           else
+            { pc with atype := ATTACH_CURSIVE, chain := wrap16 ((pa : Int) - (c : Int)), xo := xOff }) := by
+        cases hh : d.isHorizontal <;> simp [MainSame, hh]
+      have hm3 := hm2.trans (MainSameArr.put hpc hv)
+      split at h
+      · cases h
+      · rename_i pp hgp
+        have hpp := get_ok_iff.mp hgp
+        split at h
+        · simp only [Except.ok.injEq, Prod.mk.injEq] at h
+          obtain ⟨rfl, _⟩ := h
+          refine hm3.trans (MainSameArr.put hpp ?_)
+          cases hh : d.isHorizontal <;> simp [MainSame, hh]
+        · simp only [Except.ok.injEq, Prod.mk.injEq] at h
+          obtain ⟨rfl, _⟩ := h
+          exact hm3
+
+theorem cursiveCross_main {p q : Array Pos} {i j dep : Nat} {d : Dir} {f : Bool} {enX enY exX exY : Int}
+    (h : cursiveCross p i j d f enX enY exX exY = .ok (q, dep)) : MainSameArr d p q := by
+  unfold cursiveCross at h
+  split at h <;> exact cursiveAttach_main h
+
+theorem advSum_fst_zero (q : Array Pos) (lo n : Nat)
+    (h : ∀ k, lo ≤ k → k < lo + n → ((q[k]?).getD {}).xa = 0) : (advSum q lo n).1 = 0 := by
+  induction n generalizing lo with
+  | zero => rfl
+  | succ n ih =>
+    simp only [advSum]
+    rw [ih (lo + 1) (fun k h1 h2 => h k (by omega) (by omega)), h lo (Nat.le_refl _) (by omega)]; rfl
+
+theorem advSum_snd_zero (q : Array Pos) (lo n : Nat)
+    (h : ∀ k, lo ≤ k → k < lo + n → ((q[k]?).getD {}).ya = 0) : (advSum q lo n).2 = 0 := by
+  induction n generalizing lo with
+  | zero => rfl
+  | succ n ih =>
+    simp only [advSum]
+    rw [ih (lo + 1) (fun k h1 h2 => h k (by omega) (by omega)), h lo (Nat.le_refl _) (by omega)]; rfl
+
+/-- forward pen: the sum up to `j` is the sum up to `i` plus the advance of `i` plus the gap -/
+theorem advSum_gap_fwd (q : Array Pos) (i j : Nat) (bi : Pos) (hij : i < j) (hbi : q[i]? = some bi) :
+    advSum q 0 j = ((advSum q 0 i).1 + bi.xa + (advSum q (i + 1) (j - i - 1)).1,
+                    (advSum q 0 i).2 + bi.ya + (advSum q (i + 1) (j - i - 1)).2) := by
+  have e1 : j = i + (1 + (j - i - 1)) := by omega
+  have h1 := advSum_split q 0 i (1 + (j - i - 1))
+  have h2 := advSum_split q (0 + i) 1 (j - i - 1)
+  rw [← e1] at h1
+  rw [h1, h2, advSum_one]
+  have : 0 + i = i := by omega
+  rw [this, hbi]
+  ext <;> simp <;> omega
+
+/-- backward pen: the sum after `i` is the gap plus the advance of `j` plus the sum after `j` -/
+theorem advSum_gap_bwd (q : Array Pos) (i j len : Nat) (bj : Pos) (hij : i < j) (hj : j < len) (hbj : q[j]? = some bj) :
+    advSum q (i + 1) (len - 1 - i) =
+      ((advSum q (i + 1) (j - i - 1)).1 + bj.xa + (advSum q (j + 1) (len - 1 - j)).1,
+       (advSum q (i + 1) (j - i - 1)).2 + bj.ya + (advSum q (j + 1) (len - 1 - j)).2) := by
+  have e1 : len - 1 - i = (j - i - 1) + (1 + (len - 1 - j)) := by omega
+  have h1 := advSum_split q (i + 1) (j - i - 1) (1 + (len - 1 - j))
+  have h2 := advSum_split q (i + 1 + (j - i - 1)) 1 (len - 1 - j)
+  rw [← e1] at h1
+  rw [h1, h2, advSum_one]
+  have : i + 1 + (j - i - 1) = j := by omega
+  rw [this, hbj]
+  ext <;> simp <;> omega
+
+
+
+/-- what the main-axis block of the cursive lookup makes of the exit-side glyph -/
+def mainI (d : Dir) (pi : Pos) (exX exY : Int) : Pos :=
+  match d with
+  | .ltr => { pi with xa := exX + pi.xo }
+  | .rtl => { pi with xa := pi.xa - (exX + pi.xo), xo := pi.xo - (exX + pi.xo) }
+  | .ttb => { pi with ya := exY + pi.yo }
+  | .btt => { pi with ya := pi.ya - (exY + pi.yo), yo := pi.yo - (exY + pi.yo) }
+  | .invalid => pi
+
+/-- … and of the entry-side glyph -/
+def mainJ (d : Dir) (pj : Pos) (enX enY : Int) : Pos :=
+  match d with
+  | .ltr => { pj with xa := pj.xa - (enX + pj.xo), xo := pj.xo - (enX + pj.xo) }
+  | .rtl => { pj with xa := enX + pj.xo }
+  | .ttb => { pj with ya := pj.ya - (enY + pj.yo), yo := pj.yo - (enY + pj.yo) }
+  | .btt => { pj with ya := enY }
+  | .invalid => pj
+
+theorem cursiveMain_spec {p p1 : Array Pos} {i j : Nat} {d : Dir} {enX enY exX exY : Int} {pi pj : Pos}
+    (h : cursiveMain p i j d enX enY exX exY = .ok p1) (hij : i ≠ j)
+    (hpi : p[i]? = some pi) (hpj : p[j]? = some pj) :
+    p1.size = p.size ∧ (∀ k, k ≠ i → k ≠ j → p1[k]? = p[k]?) ∧
+      p1[i]? = some (mainI d pi exX exY) ∧ p1[j]? = some (mainJ d pj enX enY) := by
+  have hi := lt_of_get? hpi
+  have hj := lt_of_get? hpj
+  unfold cursiveMain at h
+  rw [get_ok_iff.mpr hpi, get_ok_iff.mpr hpj] at h
+  simp only at h
+  have key : ∀ (vi vj : Pos), p1 = put (put p i vi) j vj →
+      p1.size = p.size ∧ (∀ k, k ≠ i → k ≠ j → p1[k]? = p[k]?) ∧ p1[i]? = some vi ∧ p1[j]? = some vj := by
+    intro vi vj e
+    subst e
+    refine ⟨by simp, ?_, ?_, ?_⟩
+    · intro k h1 h2; rw [put_get?_ne _ _ (Ne.symm h2), put_get?_ne _ _ (Ne.symm h1)]
+    · rw [put_get?_ne _ _ (Ne.symm hij), put_get?_self _ _ hi]
+    · rw [put_get?_self _ _ (by simpa using hj)]
+  have hg : ∀ vi, get (put p i vi) j = .ok pj := by
+    intro vi; rw [get_ok_iff, put_get?_ne _ _ hij]; exact hpj
+  cases d
+  · simp only [hg, Except.ok.injEq] at h; exact key _ _ h.symm
+  · simp only [hg, Except.ok.injEq] at h; exact key _ _ h.symm
+  · simp only [hg, Except.ok.injEq] at h; exact key _ _ h.symm
+  · simp only [hg, Except.ok.injEq] at h; exact key _ _ h.symm
+  · simp only [Except.ok.injEq] at h
+    subst h
+    exact ⟨rfl, fun _ _ _ => rfl, hpi, hpj⟩
+
+/-- the state after `cursiveApply`, as far as the main axis is concerned -/
+theorem cursiveApply_main {p q : Array Pos} {i j dep : Nat} {d : Dir} {f : Bool} {enX enY exX exY : Int}
+    {pi pj : Pos} (h : cursiveApply p i j d f enX enY exX exY = .ok (q, dep)) (hij : i ≠ j)
+    (hpi : p[i]? = some pi) (hpj : p[j]? = some pj) :
+    q.size = p.size ∧
+    (∃ bi, q[i]? = some bi ∧ MainSame d (mainI d pi exX exY) bi) ∧
+    (∃ bj, q[j]? = some bj ∧ MainSame d (mainJ d pj enX enY) bj) ∧
+    (∀ (k : Nat) (b : Pos), k ≠ i → k ≠ j → p[k]? = some b → ∃ b', q[k]? = some b' ∧ MainSame d b b') := by
+  unfold cursiveApply at h
+  split at h
+  · cases h
+  · rename_i p1 hmain
+    obtain ⟨hs1, hne1, hi1, hj1⟩ := cursiveMain_spec hmain hij hpi hpj
+    have hm := cursiveCross_main h
+    refine ⟨by rw [hm.1, hs1], hm.2 i _ hi1, hm.2 j _ hj1, ?_⟩
+    intro k b h1 h2 hk
+    exact hm.2 k b (by rw [hne1 k h1 h2]; exact hk)
+
+
+
+theorem cursive_coincide_ltr {p q : Array Pos} {i j len dep : Nat} {f : Bool} {enX enY exX exY : Int}
+    (h : cursiveApply p i j .ltr f enX enY exX exY = .ok (q, dep)) (hij : i < j) (hj : j < len) (hl : len ≤ p.size)
+    (hz : ∀ (k : Nat) (b : Pos), i < k → k < j → p[k]? = some b → b.xa = 0) :
+    (penOrigin (visible q len .ltr) (outIdx .ltr len j)).1 + enX =
+      (penOrigin (visible q len .ltr) (outIdx .ltr len i)).1 + exX := by
+  have hip : i < p.size := by omega
+  have hjp : j < p.size := by omega
+  have hpi : p[i]? = some p[i] := by simp [hip]
+  have hpj : p[j]? = some p[j] := by simp [hjp]
+  obtain ⟨hs, ⟨bi, hbi, mi⟩, ⟨bj, hbj, mj⟩, hrest⟩ := cursiveApply_main h (by omega) hpi hpj
+  have hlq : len ≤ q.size := by omega
+  rw [penOrigin_visible q len .ltr i bi hlq (by omega) hbi, penOrigin_visible q len .ltr j bj hlq hj hbj]
+  simp only [Dir.isBackward, Dir.isForward, Bool.not_true, Bool.false_eq_true, if_false]
+  rw [advSum_gap_fwd q i j bi hij hbi]
+  have hgap : (advSum q (i + 1) (j - i - 1)).1 = 0 := by
+    apply advSum_fst_zero
+    intro k h1 h2
+    have hkp : k < p.size := by omega
+    obtain ⟨b', hb', hm⟩ := hrest k p[k] (by omega) (by omega) (by simp [hkp])
+    rw [hb']; simp only [Option.getD_some]
+    rw [hm.1]; exact hz k p[k] (by omega) (by omega) (by simp [hkp])
+  obtain ⟨mi1, _, mi3⟩ := mi
+  obtain ⟨_, _, mj3⟩ := mj
+  simp only [mainI, mainJ, Dir.isHorizontal, if_true] at mi1 mi3 mj3
+  simp only [hgap]
+  omega
+
+theorem cursive_coincide_rtl {p q : Array Pos} {i j len dep : Nat} {f : Bool} {enX enY exX exY : Int}
+    (h : cursiveApply p i j .rtl f enX enY exX exY = .ok (q, dep)) (hij : i < j) (hj : j < len) (hl : len ≤ p.size)
+    (hz : ∀ (k : Nat) (b : Pos), i < k → k < j → p[k]? = some b → b.xa = 0) :
+    (penOrigin (visible q len .rtl) (outIdx .rtl len j)).1 + enX =
+      (penOrigin (visible q len .rtl) (outIdx .rtl len i)).1 + exX := by
+  have hip : i < p.size := by omega
+  have hjp : j < p.size := by omega
+  have hpi : p[i]? = some p[i] := by simp [hip]
+  have hpj : p[j]? = some p[j] := by simp [hjp]
+  obtain ⟨hs, ⟨bi, hbi, mi⟩, ⟨bj, hbj, mj⟩, hrest⟩ := cursiveApply_main h (by omega) hpi hpj
+  have hlq : len ≤ q.size := by omega
+  rw [penOrigin_visible q len .rtl i bi hlq (by omega) hbi, penOrigin_visible q len .rtl j bj hlq hj hbj]
+  simp only [Dir.isBackward, Dir.isForward, Bool.not_false, if_true]
+  rw [advSum_gap_bwd q i j len bj hij hj hbj]
+  have hgap : (advSum q (i + 1) (j - i - 1)).1 = 0 := by
+    apply advSum_fst_zero
+    intro k h1 h2
+    have hkp : k < p.size := by omega
+    obtain ⟨b', hb', hm⟩ := hrest k p[k] (by omega) (by omega) (by simp [hkp])
+    rw [hb']; simp only [Option.getD_some]
+    rw [hm.1]; exact hz k p[k] (by omega) (by omega) (by simp [hkp])
+  obtain ⟨_, _, mi3⟩ := mi
+  obtain ⟨mj1, _, mj3⟩ := mj
+  simp only [mainI, mainJ, Dir.isHorizontal, if_true] at mi3 mj1 mj3
+  simp only [hgap]
+  omega
+
+theorem cursive_coincide_ttb {p q : Array Pos} {i j len dep : Nat} {f : Bool} {enX enY exX exY : Int}
+    (h : cursiveApply p i j .ttb f enX enY exX exY = .ok (q, dep)) (hij : i < j) (hj : j < len) (hl : len ≤ p.size)
+    (hz : ∀ (k : Nat) (b : Pos), i < k → k < j → p[k]? = some b → b.ya = 0) :
+    (penOrigin (visible q len .ttb) (outIdx .ttb len j)).2 + enY =
+      (penOrigin (visible q len .ttb) (outIdx .ttb len i)).2 + exY := by
+  have hip : i < p.size := by omega
+  have hjp : j < p.size := by omega
+  have hpi : p[i]? = some p[i] := by simp [hip]
+  have hpj : p[j]? = some p[j] := by simp [hjp]
+  obtain ⟨hs, ⟨bi, hbi, mi⟩, ⟨bj, hbj, mj⟩, hrest⟩ := cursiveApply_main h (by omega) hpi hpj
+  have hlq : len ≤ q.size := by omega
+  rw [penOrigin_visible q len .ttb i bi hlq (by omega) hbi, penOrigin_visible q len .ttb j bj hlq hj hbj]
+  simp only [Dir.isBackward, Dir.isForward, Bool.not_true, Bool.false_eq_true, if_false]
+  rw [advSum_gap_fwd q i j bi hij hbi]
+  have hgap : (advSum q (i + 1) (j - i - 1)).2 = 0 := by
+    apply advSum_snd_zero
+    intro k h1 h2
+    have hkp : k < p.size := by omega
+    obtain ⟨b', hb', hm⟩ := hrest k p[k] (by omega) (by omega) (by simp [hkp])
+    rw [hb']; simp only [Option.getD_some]
+    rw [hm.2.1]; exact hz k p[k] (by omega) (by omega) (by simp [hkp])
+  obtain ⟨_, mi2, mi3⟩ := mi
+  obtain ⟨_, _, mj3⟩ := mj
+  simp only [mainI, mainJ, Dir.isHorizontal, Bool.false_eq_true, if_false] at mi2 mi3 mj3
+  simp only [hgap]
+  omega
+
+/-- bottom-to-top: `pos[j].y_advance = entry_y` ignores `pos[j].y_offset`, so the anchors coincide only
+    when the entry-side glyph had no vertical offset (inherited from HarfBuzz). -/
+theorem cursive_coincide_btt {p q : Array Pos} {i j len dep : Nat} {f : Bool} {enX enY exX exY : Int} {pj : Pos}
+    (h : cursiveApply p i j .btt f enX enY exX exY = .ok (q, dep)) (hij : i < j) (hj : j < len) (hl : len ≤ p.size)
+    (hz : ∀ (k : Nat) (b : Pos), i < k → k < j → p[k]? = some b → b.ya = 0)
+    (hpj : p[j]? = some pj) :
+    (penOrigin (visible q len .btt) (outIdx .btt len j)).2 + enY =
+      (penOrigin (visible q len .btt) (outIdx .btt len i)).2 + exY + pj.yo := by
+  have hip : i < p.size := by omega
+  have hpi : p[i]? = some p[i] := by simp [hip]
+  obtain ⟨hs, ⟨bi, hbi, mi⟩, ⟨bj, hbj, mj⟩, hrest⟩ := cursiveApply_main h (by omega) hpi hpj
+  have hlq : len ≤ q.size := by omega
+  rw [penOrigin_visible q len .btt i bi hlq (by omega) hbi, penOrigin_visible q len .btt j bj hlq hj hbj]
+  simp only [Dir.isBackward, Dir.isForward, Bool.not_false, if_true]
+  rw [advSum_gap_bwd q i j len bj hij hj hbj]
+  have hgap : (advSum q (i + 1) (j - i - 1)).2 = 0 := by
+    apply advSum_snd_zero
+    intro k h1 h2
+    have hkp : k < p.size := by omega
+    obtain ⟨b', hb', hm⟩ := hrest k p[k] (by omega) (by omega) (by simp [hkp])
+    rw [hb']; simp only [Option.getD_some]
+    rw [hm.2.1]; exact hz k p[k] (by omega) (by omega) (by simp [hkp])
+  obtain ⟨_, _, mi3⟩ := mi
+  obtain ⟨_, mj2, mj3⟩ := mj
+  simp only [mainI, mainJ, Dir.isHorizontal, Bool.false_eq_true, if_false] at mi3 mj2 mj3
+  simp only [hgap]
+  omega
+
+
 end RbModel.Gpos
